@@ -84,6 +84,10 @@ CHECKS['C16'] = dict(
     level='proof',
     text='Theorems in Coq about H2Stream._track_content_length (translated from stream.py on every run and proved equal to the model step): for EVERY content-length n and EVERY chunking of the body into DATA frames of any non-negative sizes, DATA is accepted exactly while the payload total stays within n, and a message ended by a DATA frame is accepted if and only if the total equals n; without content-length nothing is checked; padding is never counted (for every payload / flow-controlled length); a response to HEAD expects an empty body whatever its content-length. Three clauses are refuted with witnesses in the model and replayed on the implementation (known findings): END_STREAM on HEADERS with non-zero content-length accepted (F-C16-1), mismatch undetected when the message is ended by trailers (F-C16-2), 204/304 with content-length ended by empty DATA rejected (F-C16-3); F-C16-4: HEAD request with trailers forgets the method. Directed programs over method x status x content-length x chunking x padding x END_STREAM placement are compared with the model and judged by an independent oracle.',
     design='7.C16', technique='Coq theorems by induction over DATA chunk lists on a kernel translated from the source + refutation witnesses + differential correspondence + independent runtime oracle')
+CHECKS['C13'] = dict(
+    level='proof',
+    text='Theorems in Coq, for EVERY header list, configuration and stream state: a send_headers / push_stream call that returns normally handed exactly one list to the HPACK encoder, that list is the one the emitted block carries, and it is the output of the normalisation + validation pipeline on the whole input, so encoder and peer contexts advance by the same list; a call that left the encoder untouched emitted nothing. The clause "a call that raises leaves the compression context as if it had never been made" is REFUTED with two witnesses (validation failing after four consumed fields; trailers without END_STREAM refused after encoding) = known finding F-C13-1, reproduced on the implementation by watching the real encoder table and decoding every emitted block with a peer-side decoder. Partial: hpack itself (table eviction, Huffman, size updates) is an external oracle, not modelled; its effect is observed through the peer-side decoder in the correspondence run.',
+    design='7.C13', technique='Coq theorems on the call/encoder interface (all inputs) + refutation witnesses + differential correspondence on the encoder log and peer-side decoding')
 NA_REASON = {}
 def main():
     checks = []
